@@ -63,6 +63,8 @@ type scen struct {
 	Named   map[string]int `json:"named,omitempty"`  // identity field -> actor index
 	SigBy   int            `json:"sig_by,omitempty"` // whose external-chain key signs the item (-1: garbage)
 	Note    string         `json:"note,omitempty"`
+	ID      string         `json:"id,omitempty"`  // job id / subdenom as submitted (near-miss spellings included)
+	Of      int            `json:"of,omitempty"`  // whose object (denom) the message refers to
 	Nested  bool           `json:"nested,omitempty"` // inside a transaction: wrapped in authz.MsgExec(grantee = its signer)
 	Tx      []scen         `json:"tx,omitempty"`     // kind "tx": the messages of one transaction, in order
 	Pre     []scen         `json:"pre,omitempty"`    // honest deliveries that set the scene (must succeed)
@@ -98,6 +100,9 @@ var drivenKinds = []string{
 	"treasury.MsgUpsertRelayerFee", "valset.MsgKeepAlive",
 	"evm.MsgRemoveSmartContractDeploymentRequest", "evm.MsgProposeNewReferenceBlockAttestation",
 	"evm.MsgUploadUserSmartContractRequest",
+	"scheduler.MsgCreateJob", "scheduler.MsgCreateJob",
+	"tokenfactory.MsgCreateDenom", "tokenfactory.MsgMint", "tokenfactory.MsgBurn", "tokenfactory.MsgChangeAdmin",
+	"paloma.MsgAddLightNodeClientLicense",
 }
 
 func (e *env) build(t *testing.T, s scen) (*built, error) {
@@ -221,10 +226,123 @@ func (e *env) build(t *testing.T, s scen) (*built, error) {
 		m := &evmtypes.MsgUploadUserSmartContractRequest{Metadata: md, Title: "t", AbiJson: `[{"inputs":[],"stateMutability":"nonpayable","type":"constructor"}]`, Bytecode: "0x6080", ConstructorInput: "0x"}
 		b.msg, b.biz = m, s.Creator >= 0
 		b.run = func(ctx sdk.Context) error { _, err := e.evm.UploadUserSmartContract(ctx, m); return err }
+	case "scheduler.MsgCreateJob":
+		o := nm("Job.Owner")
+		var owner sdk.AccAddress
+		if o >= 0 && o < nActors {
+			owner = e.actors[o]
+		}
+		m := &schedulertypes.MsgCreateJob{Metadata: md, Job: &schedulertypes.Job{ID: s.ID, Owner: owner,
+			Routing:    schedulertypes.Routing{ChainType: "evm", ChainReferenceID: chain},
+			Definition: []byte(fmt.Sprintf(`{"abi":"[]","address":"0x%040x"}`, s.Creator+1)),
+			Payload:    []byte(fmt.Sprintf(`{"hexPayload":"0x%02x"}`, s.Creator+1))}}
+		// valid apart from identity: a well-formed id (lower case, allowed characters) that no job has yet
+		b.biz = wellFormedJobID(s.ID) && !e.jobIDs[s.ID] && s.Creator >= 0
+		b.msg = m
+		b.fields = []string{"Job.Owner"}
+		b.run = func(ctx sdk.Context) error {
+			_, err := e.sched.CreateJob(ctx, m)
+			if err == nil {
+				e.jobIDs[s.ID] = true
+			}
+			return err
+		}
+	case "tokenfactory.MsgCreateDenom":
+		m := &tokenfactorytypes.MsgCreateDenom{Subdenom: s.ID, Metadata: md}
+		b.msg = m
+		b.biz = s.Creator >= 0 && wellFormedSubdenom(s.ID) && !e.denoms[fmt.Sprintf("%d/%s", s.Creator, s.ID)]
+		b.run = func(ctx sdk.Context) error {
+			_, err := e.tf.CreateDenom(ctx, m)
+			if err == nil {
+				e.denoms[fmt.Sprintf("%d/%s", s.Creator, s.ID)] = true
+			}
+			return err
+		}
+	case "tokenfactory.MsgMint", "tokenfactory.MsgBurn":
+		denom := fmt.Sprintf("factory/%s/%s", addr(s.Of), s.ID)
+		exists := e.denoms[fmt.Sprintf("%d/%s", s.Of, s.ID)]
+		coin := sdk.Coin{Denom: denom, Amount: sdkmath.NewInt(7)}
+		b.biz = exists && s.Creator == s.Of
+		if s.Kind == "tokenfactory.MsgMint" {
+			m := &tokenfactorytypes.MsgMint{Amount: coin, Metadata: md}
+			b.msg = m
+			b.run = func(ctx sdk.Context) error { _, err := e.tf.Mint(ctx, m); return err }
+		} else {
+			m := &tokenfactorytypes.MsgBurn{Amount: coin, Metadata: md}
+			b.msg = m
+			b.biz = b.biz && e.minted[denom]
+			b.run = func(ctx sdk.Context) error { _, err := e.tf.Burn(ctx, m); return err }
+		}
+		if s.Kind == "tokenfactory.MsgMint" {
+			run0 := b.run
+			b.run = func(ctx sdk.Context) error {
+				err := run0(ctx)
+				if err == nil {
+					e.minted[denom] = true
+				}
+				return err
+			}
+		}
+	case "tokenfactory.MsgChangeAdmin":
+		na := nm("NewAdmin")
+		denom := fmt.Sprintf("factory/%s/%s", addr(s.Of), s.ID)
+		m := &tokenfactorytypes.MsgChangeAdmin{Denom: denom, NewAdmin: addr(na), Metadata: md}
+		b.msg = m
+		b.fields = []string{"NewAdmin"}
+		b.biz = e.denoms[fmt.Sprintf("%d/%s", s.Of, s.ID)] && s.Creator == s.Of && na >= 0 && na < nActors
+		b.run = func(ctx sdk.Context) error { _, err := e.tf.ChangeAdmin(ctx, m); return err }
+	case "paloma.MsgAddLightNodeClientLicense":
+		c := nm("ClientAddress")
+		m := &palomatypes.MsgAddLightNodeClientLicense{Metadata: md, ClientAddress: addr(c), Amount: sdk.NewInt64Coin("ugrain", 1000), VestingMonths: 12}
+		b.msg = m
+		b.fields = []string{"ClientAddress"}
+		// the creator needs funds; the client must be an address that has neither an account nor a licence yet
+		hasAccount := c <= idxUser0 || c == idxGov // funded at genesis / module account
+		for _, g := range s.Grants {
+			if g[1] == c {
+				hasAccount = true // the feegrant keeper creates the grantee's account
+			}
+		}
+		b.biz = s.Creator >= 0 && s.Creator <= idxUser0 && c >= 0 && c < nActors && !hasAccount && !e.licensed[c]
+		b.run = func(ctx sdk.Context) error {
+			_, err := e.paloma.AddLightNodeClientLicense(ctx, m)
+			if err == nil {
+				e.licensed[c] = true
+			}
+			return err
+		}
 	default:
 		return nil, fmt.Errorf("kind %s not driven", s.Kind)
 	}
 	return b, nil
+}
+
+func wellFormedJobID(id string) bool {
+	if len(id) == 0 || len(id) > 32 || strings.Contains(id, "paloma") || strings.Contains(id, "pigeon") {
+		return false
+	}
+	for _, c := range id {
+		if !strings.ContainsRune("abcdefghijklmnopqrstuvwxyz0123456789-_.", c) {
+			return false
+		}
+	}
+	return true
+}
+
+func wellFormedSubdenom(id string) bool {
+	if len(id) == 0 || len(id) > 44 {
+		return false
+	}
+	for _, c := range id {
+		if !(c >= 'a' && c <= 'z' || c >= 'A' && c <= 'Z' || c >= '0' && c <= '9' || strings.ContainsRune("/:._-", c)) {
+			return false
+		}
+	}
+	return true
+}
+
+func isEnv2Kind(k string) bool {
+	return strings.HasPrefix(k, "tokenfactory.") || strings.HasPrefix(k, "paloma.")
 }
 
 type obs struct {
@@ -591,6 +709,46 @@ func genScen(r *rand.Rand, kind string, hostile bool) scen {
 		}
 	case "treasury.MsgUpsertRelayerFee":
 		named("FeeSetting.ValAddress", 45)
+	case "scheduler.MsgCreateJob":
+		// somebody else owns a job; the message's id is that id, a near-miss spelling of it, or a fresh one
+		base := []string{"vault-rebalance", "a.b_c-1"}[r.Intn(2)]
+		owner := anyActor(r)
+		for owner == idxGov {
+			owner = anyActor(r)
+		}
+		s.Pre = []scen{{Kind: kind, Creator: owner, Signers: []int{owner}, ID: base, SigBy: -1}}
+		s.ID = nearMiss(r, base)
+		named("Job.Owner", 30)
+	case "tokenfactory.MsgCreateDenom":
+		owner := r.Intn(idxUser0 + 1)
+		s.Pre = []scen{{Kind: kind, Creator: owner, Signers: []int{owner}, ID: "gold", SigBy: -1}}
+		s.ID = nearMiss(r, "gold")
+		if s.Creator > idxUser0 && r.Intn(3) != 0 {
+			s.Creator = r.Intn(idxUser0 + 1)
+			s.Signers = []int{s.Creator}
+		}
+	case "tokenfactory.MsgMint", "tokenfactory.MsgBurn", "tokenfactory.MsgChangeAdmin":
+		owner := r.Intn(idxUser0 + 1)
+		s.Pre = []scen{{Kind: "tokenfactory.MsgCreateDenom", Creator: owner, Signers: []int{owner}, ID: "gold", SigBy: -1},
+			{Kind: "tokenfactory.MsgMint", Creator: owner, Signers: []int{owner}, ID: "gold", Of: owner, SigBy: -1}}
+		s.Of, s.ID = owner, "gold"
+		if r.Intn(3) == 0 { // the owner itself (possibly through its relayer key)
+			s.Creator = owner
+			if len(s.Signers) == 1 && s.Signers[0] != owner && len(s.Grants) == 1 {
+				s.Grants[0][0] = owner
+			} else {
+				s.Signers, s.Grants = []int{owner}, nil
+			}
+		}
+		if kind == "tokenfactory.MsgChangeAdmin" {
+			s.Named["NewAdmin"] = anyActor(r)
+		}
+	case "paloma.MsgAddLightNodeClientLicense":
+		if r.Intn(2) == 0 {
+			owner := r.Intn(idxUser0 + 1)
+			s.Pre = []scen{{Kind: kind, Creator: owner, Signers: []int{owner}, Named: map[string]int{"ClientAddress": idxUser0 + 1}, SigBy: -1}}
+		}
+		s.Named["ClientAddress"] = pick(r, idxUser0+1, idxUser0+1, idxUser0+2, anyActor(r))
 	}
 	if hostile {
 		switch r.Intn(4) {
@@ -628,8 +786,45 @@ func genScen(r *rand.Rand, kind string, hostile bool) scen {
 	return s
 }
 
+// nearMiss: the identifier itself, case / whitespace variants of it, or a fresh well-formed one
+func nearMiss(r *rand.Rand, base string) string {
+	switch r.Intn(8) {
+	case 0:
+		return base
+	case 1:
+		return strings.ToUpper(base[:1]) + base[1:]
+	case 2:
+		return strings.ToUpper(base)
+	case 3:
+		return " " + base
+	case 4:
+		return base + " "
+	case 5:
+		return "\t" + base + "\n"
+	case 6:
+		return strings.Title(strings.ReplaceAll(base, "-", " -"))
+	default:
+		return base + fmt.Sprint(r.Intn(9))
+	}
+}
+
 func runOne(t *testing.T, run *emit.Run, s scen, fromCorpus bool) {
-	e := setup(t)
+	var e *env
+	if isEnv2Kind(s.Kind) {
+		e = setup2(t)
+	} else {
+		e = setup(t)
+	}
+	// honest deliveries by other principals that set the scene (they own jobs, denoms, licences)
+	for _, p := range s.Pre {
+		pb, err := e.build(t, p)
+		if err != nil {
+			t.Fatalf("pre-step %+v cannot be built: %v", p, err)
+		}
+		if err := pb.run(e.ctx); err != nil {
+			t.Fatalf("pre-step %+v failed: %v", p, err)
+		}
+	}
 	b, err := e.build(t, s)
 	if err != nil {
 		t.Fatalf("scenario %+v cannot be built: %v", s, err)
